@@ -143,10 +143,8 @@ func InnerJoin(ctx context.Context, scope *ReferenceScope, view *View, joinView 
 
 	var joinFn = func(thIdx int) {
 		defer func() {
-			if !gm.HasError() {
-				if panicReport := recover(); panicReport != nil {
-					gm.SetError(NewFatalError(panicReport))
-				}
+			if panicReport := recover(); panicReport != nil {
+				gm.SetError(NewFatalError(panicReport))
 			}
 
 			if 1 < gm.Number {
@@ -244,10 +242,8 @@ func OuterJoin(ctx context.Context, scope *ReferenceScope, view *View, joinView 
 
 	var joinFn = func(thIdx int) {
 		defer func() {
-			if !gm.HasError() {
-				if panicReport := recover(); panicReport != nil {
-					gm.SetError(NewFatalError(panicReport))
-				}
+			if panicReport := recover(); panicReport != nil {
+				gm.SetError(NewFatalError(panicReport))
 			}
 
 			if 1 < gm.Number {
